@@ -22,6 +22,20 @@ impl Scenario {
     /// Execute the scenario. An abort anywhere outside the guarded calls into bourse (e.g. a monitor indexing with
     /// an id the real code made up) is reported as a violation of the scenario's property, never as a crash.
     pub fn execute(&self, run_dir: &str) -> RunOutcome {
+        // every execution starts from an empty scratch directory: nothing a previous run (or a previous candidate of the
+        // minimiser) left on disk may influence this one - otherwise a replay in a fresh process could not reproduce it
+        if !run_dir.is_empty() && !matches!(self, Scenario::StatBatch { .. }) {
+            if let Ok(rd) = std::fs::read_dir(run_dir) {
+                for e in rd.flatten() {
+                    let p = e.path();
+                    if p.is_dir() {
+                        let _ = std::fs::remove_dir_all(&p);
+                    } else {
+                        let _ = std::fs::remove_file(&p);
+                    }
+                }
+            }
+        }
         match guard(|| self.execute_inner(run_dir)) {
             Ok(o) => o,
             Err(msg) => RunOutcome {
